@@ -96,18 +96,12 @@ def install_stubs(world, *, hashseed='0', msvc=False, tools=None,
             'exec /usr/bin/touch -d "@$(({1}+t))" "$@"\n'
             .format(world.root, _w.EPOCH))
     if touch:
-        # cp / ln as used by copy_file rules and custom commands: the real
-        # tool, then the destination gets the next logical tick (a kernel
-        # stamp would later be normalised to a tick *after* files that were
-        # in fact written after it)
+        # cp / ln as used by copy_file rules and custom commands go through
+        # the stub tool too (tick stamping, step log): see tool.py copy_like
         for tool in ('cp', 'ln'):
-            _write_exe(
-                os.path.join(world.bin, tool),
-                '#!/bin/sh\n/usr/bin/{2} "$@" || exit $?\n'
-                'for last; do :; done\n'
-                't=$(($(cat {0}/clock)+1)); echo $t > {0}/clock\n'
-                'exec /usr/bin/touch -h -d "@$(({1}+t))" "$last"\n'
-                .format(world.root, _w.EPOCH, tool))
+            _write_exe(os.path.join(world.bin, tool),
+                       '#!/bin/sh\nexec {} -SE {} {} {} "$@"\n'
+                       .format(PY, tool_py, world.root, tool))
     cfg = {'clock_mode': 'strict', 'bufsize': 4096, 'seed': 0,
            'launch_limit': 3}
     cfg.update(config or {})
